@@ -157,6 +157,11 @@ class Endpoint(object):
         self.t13_calls = sh.vf_t13_calls()
         self.t13_applied = sh.vf_t13_applied()
         self.t13_last_len = sh.vf_t13_last_len()
+        try:
+            self.scheme_applied = sh.vf_scheme_applied()
+            sh.vf_scheme_override(-1)
+        except AttributeError:
+            self.scheme_applied = 0
 
     def handshake(self, close_on_fail=True):
         """Thread body: handshake; an endpoint whose handshake fails closes its socket, as an application would."""
